@@ -13,7 +13,8 @@ import re
 import sched_threads as st
 
 LABELS = {"start": "LStart", "ev.is_set": "LEvIsSet", "ev.set": "LEvSet", "q.put": "LQPut", "q.get": "LQGet",
-          "q.empty": "LQEmpty", "sem.acquire": "LSemAcq", "sem.release": "LSemRel", "sleep": "LSleep", "src.next": "LSrcNext"}
+          "q.empty": "LQEmpty", "sem.acquire": "LSemAcq", "sem.release": "LSemRel", "sleep": "LSleep", "src.next": "LSrcNext",
+          "th.is_alive": "LIsAlive"}     # LIsAlive occurs in oracle-only cases (alive_yield), which are not replayed on the model
 
 
 class SrcError(Exception):
@@ -182,6 +183,7 @@ def tid_of(name):
 def run_case(c):
     """Runs one scheduled history. Returns dict(status, obs, trace, monitor...)."""
     st.install()
+    st.ALIVE_YIELD = bool(c.get("alive_yield"))
     st.Thread._count = 0
     _gen_of.clear()
     mon = Monitor()
@@ -309,6 +311,7 @@ def run_case(c):
     finally:
         gc.enable()
         st.uninstall()
+        st.ALIVE_YIELD = False
         for cls in (m._SingleThreadedMapper, m._ParallelMapperIter):
             cls.__next__ = cls._verif_orig_next
     if steps:
